@@ -743,7 +743,15 @@ def rules(rep, m):
     icx = FuncCtx(m, ie)
     rv = [icx.canon(kids(x)[0]) for x in walk(ie.body) if x["kind"] == "ReturnStmt"]
     p0, p1 = ie.params[0]["name"], ie.params[1]["name"]
-    if "(cmi_hash_find_index(%s, %s) != 0)" % (p0, p1) not in rv:
+    want_ = "(cmi_hash_find_index(%s, %s) != 0)" % (p0, p1)
+    # the lookup decides; it may be guarded by "there is a heap and it is not empty" (in which case nothing is enqueued)
+    def lookup_decides(t_):
+        if t_ == want_:
+            return True
+        mm_ = re.fullmatch(r"\((.+) && %s\)" % re.escape(want_), t_)
+        return bool(mm_) and re.fullmatch(r"[!()\w\s>=|&\-]*(heap|heap_count)[!()\w\s>=|&\-]*", mm_.group(1)) is not None and \
+            "hash_find" not in mm_.group(1)
+    if not any(lookup_decides(t_) for t_ in rv):
         rep.finding(r6, ie.name, "enqueued:query", "is-enqueued returns %s, not 'hash index of key != 0'" % rv,
                     where=m.rel(ie.where))
         r6.fail()
